@@ -422,3 +422,7 @@ func c04Stack(rep *Report, w *World, A *big.Int, base string, list []feeShape) {
 	rep.Outcome("stack-accepted-exact")
 	rep.Count("traces_validated_against_impl", 1)
 }
+
+func newFeeController(bank *recBank) (*actionctrl.FeeController, error) {
+	return actionctrl.NewFeeController(silentLogger, runtime.ProvideEventService(), bank)
+}
